@@ -115,7 +115,7 @@ class GraphModel(Analysis):
         from .flow import Out
         return Out()
 
-    def on_return(self, ip, node, val, st, fr):
+    def on_return_stmt(self, ip, node, val, st, fr):
         self.ev(ip, 'RET', node, st, fr, val=val, in_loop=bool(ip.loopctx), ypend=st.a('ypend'),
                 scanned=st.a('scanned', False))
         return st
